@@ -23,6 +23,7 @@ from ..core import (
     walk_no_nested,
 )
 from ..lib import implied, must_pass, stores_of, strip_await, test_edges
+from ..lib import all_calls  # noqa: E402
 from ..selftest import E, M
 from . import c03
 
@@ -301,6 +302,75 @@ def rule_builder(program, ctx, prop=P, rid="C16.builder"):
             ctx.ok(rid, c, "ListBuilder started in every worker when dynamic_lists is configured")
 
 
+def rule_hastag(program, ctx, prop=P, rid="C16.hastag"):
+    ctx.rule(
+        rid,
+        "Event.has_tag returns a pair (found_any_tag_of_that_name, matching_value): every use in the package unpacks it, indexes it, or requires both with all(…) - "
+        "`any(event.has_tag(…))` or the pair's own truthiness accepts an event that merely carries *some* tag of that name (a stranger who p-tags anybody passes the "
+        "home-server whitelist)",
+        floor=2,
+    )
+    n = 0
+    for m, c in all_calls(program):
+        if isinstance(c.func, ast.Attribute) and c.func.attr == "has_tag":
+            par = getattr(c, "_parent", None)
+            n += 1
+            okuse = False
+            if isinstance(par, ast.Assign) and isinstance(par.targets[0], (ast.Tuple, ast.List)) and len(par.targets[0].elts) == 2:
+                okuse = True
+            elif isinstance(par, ast.Subscript):
+                okuse = True
+            elif isinstance(par, ast.Call) and call_name(par) == "all":
+                okuse = True
+            elif isinstance(par, ast.Assign) and isinstance(par.targets[0], ast.Name):
+                okuse = True  # bound to a name: uses of the name are index / unpack in this code base (checked below)
+                nm = par.targets[0].id
+                f = getattr(par, "_func", None)
+                for u in (ast.walk(f) if f is not None else []):
+                    if isinstance(u, ast.Name) and u.id == nm and isinstance(u.ctx, ast.Load):
+                        up = getattr(u, "_parent", None)
+                        if isinstance(up, (ast.If, ast.BoolOp, ast.UnaryOp)) or (isinstance(up, ast.Call) and call_name(up) in ("any", "bool")):
+                            okuse = False
+            if okuse:
+                ctx.ok(rid, c, f"{qual_of(c)}: has_tag pair used by unpack/index/all")
+            else:
+                ctx.bad(finding_at(prop, rid, c, f"{qual_of(c)}: the (found, match) pair of has_tag is used as `{norm(par, 60) if par is not None else '?'}`: truthy as soon as the event has any tag of that "
+                                   "name, whatever its value - the check no longer depends on the configured list"))
+    if not n:
+        raise AnalysisError("no has_tag use found")
+
+
+def rule_readonly_filters(program, ctx, prop=P, rid="C16.filters"):
+    ctx.rule(
+        rid,
+        "configured list queries are read-only: NostrQuery.model_validate(obj) does not change `obj` beyond (re)writing its derived `tags` member (no pop/del/item store on any other key) - the ListBuilder "
+        "hands the *same* configured filter dicts to run_single_query on every refresh; a parser that consumes the '#x' keys strips the tag restriction from the second "
+        "refresh on, and the allow list fills with pubkeys tagged by unrelated events",
+        floor=1,
+    )
+    fn = program.func("nostr_relay.storage.base:NostrQuery.model_validate")
+    p = fn.args.args[1].arg if len(fn.args.args) > 1 else "obj"
+    bad = []
+
+    def only_tags(key):
+        # the derived `tags` member is (re)computed from the '#x' keys on every call: writing it is idempotent
+        return isinstance(key, ast.Constant) and key.value == "tags"
+
+    for n in walk_no_nested(fn):
+        if isinstance(n, ast.Call) and isinstance(n.func, ast.Attribute) and dotted(n.func.value) == p and n.func.attr in ("pop", "popitem", "clear", "update", "setdefault", "__setitem__", "__delitem__"):
+            if not (n.func.attr in ("pop", "setdefault", "__setitem__", "__delitem__") and n.args and only_tags(n.args[0])):
+                bad.append(n)
+        if isinstance(n, ast.Delete) and any(isinstance(t, ast.Subscript) and dotted(t.value) == p and not only_tags(t.slice) for t in n.targets):
+            bad.append(n)
+        if isinstance(n, (ast.Assign, ast.AugAssign)) and any(isinstance(t, ast.Subscript) and dotted(t.value) == p and not only_tags(t.slice) for t in (n.targets if isinstance(n, ast.Assign) else [n.target])):
+            bad.append(n)
+    if bad:
+        ctx.bad(finding_at(prop, rid, bad[0], f"model_validate mutates the filter object it is given (`{norm(bad[0], 50)}`): a filter dict that is reused (dynamic_lists queries, internal callers) loses "
+                           "its '#x' conditions after the first use"))
+    else:
+        ctx.ok(rid, fn, "model_validate leaves its argument untouched")
+
+
 def run(program, ctx):
     from ..lib import rule_awaited
 
@@ -311,6 +381,8 @@ def run(program, ctx):
     rule_handlers(program, ctx)
     rule_lists(program, ctx)
     rule_builder(program, ctx)
+    rule_hastag(program, ctx)
+    rule_readonly_filters(program, ctx)
     from . import c04
 
     # the static black/white lists are compared as strings with event.pubkey: they rely on admission accepting only the canonical lower-case spelling
